@@ -146,18 +146,35 @@ example :
       (crashMid s).segs.map (·.1) = [0, 1] ∧ visibleKeys (crashMid s) = [3, 4, 1, 2] := by
   decide
 
-/-- Without an index file the statement is FALSE: the restart serves every directory, also the
-incomplete one of a kill inside the FIRST segment write of a shard (finding
-C01-kill-in-first-segment-write, replayed on the engine). -/
-theorem C11_incomplete_first_directory_served_fails :
+/-- A shard writes its (empty) index file when it first starts (repair 87bdff9), and nothing ever
+removes it: in EVERY history of stores, flushes, worker steps, kills and restarts the index file
+exists. Hence the hypothesis `indexExists` of the two theorems above holds at every kill point —
+also at a kill inside the very first segment write of a shard — and `crashMid` never sets
+`poisoned`. -/
+theorem C11_index_file_always_exists (cap k : Nat) (ops : List Op) :
+    (runOps (Shard.init cap k) ops).indexExists = true :=
+  runOps_indexExists ops rfl
+
+/-- The first segment write of a shard, killed inside: the directory exists and is not served. -/
+example :
     let s := runOps (Shard.init 2 2) [.store ⟨1,0,0⟩, .store ⟨2,0,0⟩]
-    s.indexExists = false ∧ (crashMid s).live = [0] ∧ (crashMid s).poisoned = true := by
+    s.indexExists = true ∧ (crashMid s).live = [] ∧ (crashMid s).segs.map (·.1) = [0] ∧
+      (crashMid s).poisoned = false ∧ visibleKeys (crashMid s) = [1, 2] ∧ count (crashMid s) = 2 := by
+  decide
+
+/-- What the code does when the index file is missing although directories exist (removed by
+hand; not reachable by the machine): it serves every directory, also an incomplete one. Before
+the repair 87bdff9 a kill inside the first segment write of a fresh shard ended here
+(`fixed:` entry C01 kill-in-first-segment-write). -/
+example :
+    let s := { runOps (Shard.init 2 2) [.store ⟨1,0,0⟩, .store ⟨2,0,0⟩] with indexExists := false }
+    (crashMid s).live = [0] ∧ (crashMid s).poisoned = true := by
   decide
 
 /-- Non-vacuity: a history with a crash in the middle of a flush and a restart. -/
 example :
     let s := runOps (Shard.init 2 2) [.store ⟨1,0,0⟩, .store ⟨2,0,0⟩, .flushStep, .crash, .store ⟨3,0,0⟩]
-    s.live = [0] ∧ s.index = [] ∧ s.jobs.length = 1 := by
+    s.live = [] ∧ s.segs.map (·.1) = [0] ∧ s.index = [] ∧ s.jobs.length = 1 := by
   decide
 
 end Snel.Props.C11
